@@ -108,12 +108,18 @@ def run_workspace(work, idx, c, exp_files, lang):
     lang = lang.split("+")[0]
     d = os.path.join(work, f"w{idx}{lang}{len(prefix)}")
     # MC_C14!RootPath: the workspace may lie below directories that are called src themselves
-    ws = os.path.join(d, *{"plain": ["ws"], "under_src": ["src", "ws"], "under_src_twice": ["src", "tmp", "src", "ws"]}[c.get("root", "plain")])
+    ws = os.path.join(d, *{"plain": ["ws"], "under_src": ["src", "ws"], "under_src_twice": ["src", "tmp", "src", "ws"], "cwd_dot": ["ws"], "cwd_dot_src": ["ws"]}[c.get("root", "plain")])
     cli.make_tree(ws, files)
     out = os.path.join(d, "out")
-    r = cli.run_cli(["-l", lang] + LANG_ARGS[lang] + prefix + ["-d", out, ws], timeout=20)
+    roots, cwd = [ws], None
+    if c.get("root") in ("cwd_dot", "cwd_dot_src"):
+        # MC_C14!Roots: typeshare is run from INSIDE the consumer crate: its own sources are `.` (or `./src`), the other crates `../<crate>`
+        cwd = os.path.join(ws, "consumer")
+        others = sorted({f.split("/")[0] for f in files} - {"consumer"})
+        roots = ["." if c["root"] == "cwd_dot" else "./src"] + [os.path.join("..", o) for o in others]
+    r = cli.run_cli(["-l", lang] + LANG_ARGS[lang] + prefix + ["-d", out] + roots, timeout=20, cwd=cwd)
     single = os.path.join(d, "single." + common.EXT[lang])
-    r1 = cli.run_cli(["-l", lang] + LANG_ARGS[lang] + prefix + ["-o", single, ws], timeout=20)
+    r1 = cli.run_cli(["-l", lang] + LANG_ARGS[lang] + prefix + ["-o", single] + roots, timeout=20, cwd=cwd)
     return c, lang, files, same_crate, r, r1, out, single
 
 
